@@ -42,6 +42,11 @@ def run_c07(prop, tier):
         for k in (1, 3, 9):
             for lat in ([16, 40, 2], [16, 2, 40]):
                 recs.append({"sched": {"auth": 0, "ackAt": 1, "infoAt": 1, "lat": lat, "policy": pol}, "wstall": {"at": 15, "k": k, "release": 19}})
+    # ... and with an echo that arrives in two pieces around the completion of a routing step (discovery done at 21 s: the echo of the
+    # Keep Alive of 16 s starts at 19 s and is complete at 24 s -- in time), routing then outlasts the next deadlines
+    for cut in (1, 3, 5, 9):
+        for lat in ([20, 40, 2], [4, 16, 40]):
+            recs.append({"sched": {"auth": 0, "ackAt": 1, "infoAt": 1, "lat": lat, "policy": "prompt"}, "seg": {"frame": "Echo", "cut": cut, "pause": 5}})
     vlib.write_ndjson(inp, recs)
     vlib.run_bin(hx, ["conn-timed", "--in", inp, "--out", outp, "--seed", str(seed), "--threads", "12"], timeout=1800)
     observed = vlib.read_ndjson(outp)
@@ -60,7 +65,7 @@ def run_c07(prop, tier):
                        "model_timelines": [b["tl"] for b in by_sched.get(json.dumps(o["sched"], sort_keys=True), [])], "seed": seed})
     drift = 0
     for o in observed:
-        if o.get("stalled"):
+        if o.get("stalled") or json.dumps(o["sched"], sort_keys=True) not in by_sched or o.get("seg") not in (None, "none"):
             continue
         allowed = [([(x["t"], x["k"]) for x in b["tl"]], b["result"]) for b in by_sched[json.dumps(o["sched"], sort_keys=True)]]
         if (timeline(o["obs"]), o["result"]) not in allowed:
